@@ -314,38 +314,6 @@ def run(p, report, tier):
                    detail=("operand depends on earlier picks via " + ", ".join(sorted(carried)[:5])) if carried
                    else "the operand of the selection never depends on the accumulator of earlier picks: "
                         "they cannot be excluded (duplicates under ties)")
-        # R1.4m: the dependence goes through an exclusion mechanism
-        lvedges, _ = value_edges(L, ff.locs)
-        picks = forward_closure(rnames | acc, lvedges) | rnames | acc
-        # boolean pool masks flipped at the picks count as pick-derived indices
-        for n in ast.walk(L):
-            if isinstance(n, ast.Assign) and ast.unparse(n.value) in ("True", "False"):
-                for t in n.targets:
-                    if isinstance(t, ast.Subscript) and (index_names(t) & picks) and base_name(t):
-                        picks = picks | {base_name(t)}
-        ex = [(n, b, k) for (n, b, k) in exclusion_statements(L, picks) if b in back or b in ops]
-        via_callee = False
-        if not ex:
-            for c in ast.walk(L):
-                if isinstance(c, ast.Call) and c is not S and callee_exclusions(p, f, c, picks):
-                    # the call's result must feed the operand
-                    for st in ast.walk(L):
-                        if isinstance(st, ast.Assign) and any(x is c for x in ast.walk(st.value)):
-                            if any(base_name(t) in back for t in st.targets):
-                                via_callee = True
-        sampling_m3 = False
-        if not ex and not via_callee and callname(S) == "choice":
-            txt = " ".join(ast.unparse(x) for x in ast.walk(L) if isinstance(x, ast.Call)
-                           and callname(x) and "pairwise_distances" in callname(x))
-            sampling_m3 = bool(txt)
-        okm = bool(ex) or via_callee or sampling_m3
-        mech = (ex[0][2] + ": `" + norm_stmt(ex[0][0], 60) + "`") if ex else (
-            "M1/M2 inside a callee that receives the picks" if via_callee else
-            ("M3: zero sampling mass at distance-to-selected" if sampling_m3 else ""))
-        report.add("R1.4m", ent, construct, f"{f.file}:{S.lineno}", okm,
-                   detail=("exclusion mechanism " + mech) if okm else
-                   "earlier picks are not excluded by a mask (NaN/0/False store indexed by the picks) or by shrinking "
-                   "the pool; relying on distances/cluster cells alone fails for duplicated points and empty cells")
         # R1.5: picks flow (as values) to the returned indices
         vfw = forward_closure(rnames, ff.vedges)
         flows = bool((vfw | rnames) & ff.ret_closure)
@@ -354,6 +322,7 @@ def run(p, report, tier):
                    "the picks used for masking are not what the function returns; the caller has to re-derive "
                    "them from the utility rows with an independent tie-break")
     report.analysed["selection_loops"] = n_loops
+    check_exclusion_mechanisms(p, report, funcs, facts)
 
     # ---- R1.3 ------------------------------------------------------------
     for f in funcs:
@@ -427,6 +396,24 @@ def exclusion_statements(region, pick_names):
     return res
 
 
+def cond_context(tree, stmt, loop, counters=()):
+    """(If node id, branch) pairs that guard `stmt` inside `loop`; tests that
+    only distinguish the first iteration (`i == 0`, `i > 0`, `b > 0`) do not
+    count: on the first iteration there are no earlier picks to exclude."""
+    out = set()
+    for (s_, owner, field, idx) in tree.ancestors(stmt):
+        if owner is loop:
+            break
+        if isinstance(owner, ast.If) and field in ("body", "orelse") and tree.contains(loop, owner):
+            t = owner.test
+            if isinstance(t, ast.Compare) and len(t.ops) == 1 and isinstance(t.left, ast.Name) \
+                    and isinstance(t.comparators[0], ast.Constant) and t.comparators[0].value in (0, 1) \
+                    and t.left.id in counters:
+                continue
+            out.add((id(owner), field))
+    return out
+
+
 def callee_exclusions(p, f, call, pick_names):
     """Does a project callee that receives a pick-derived argument exclude by
     M1/M2 on something that flows to its return value?"""
@@ -457,6 +444,95 @@ def callee_exclusions(p, f, call, pick_names):
             rets |= names_in(n.value)
     back = closure(rets, gedges)
     return any(b in back for (_, b, _) in ex)
+
+
+class Report_proxy:
+    """Report wrapper that files obligations under other rule ids (rules
+    shared between properties)."""
+
+    def __init__(self, report, mapping):
+        self.r = report
+        self.m = mapping
+
+    def add(self, rule, *a, **k):
+        return self.r.add(self.m.get(rule, rule), *a, **k)
+
+
+def check_exclusion_mechanisms(p, report, funcs, facts):
+    for rec in loop_records(funcs, facts):
+        f, ff, L, S, rnames, acc, edges, fw = rec
+        ops = operand_names(S, ff.locs)
+        back = closure(ops, edges)
+        ent = f.qual
+        construct = f"loop `{norm_stmt(L, 60)}` selection {site_id(S, 70)}"
+        # R1.4m: the dependence goes through an exclusion mechanism
+        lvedges, _ = value_edges(L, ff.locs)
+        picks = forward_closure(rnames | acc, lvedges) | rnames | acc
+        # boolean pool masks flipped at the picks count as pick-derived indices
+        for n in ast.walk(L):
+            if isinstance(n, ast.Assign) and ast.unparse(n.value) in ("True", "False"):
+                for t in n.targets:
+                    if isinstance(t, ast.Subscript) and (index_names(t) & picks) and base_name(t):
+                        picks = picks | {base_name(t)}
+        ex = [(n, b, k) for (n, b, k) in exclusion_statements(L, picks) if b in back or b in ops]
+        tree = FuncTree(f.node)
+        s_stmt = tree.stmt_of(S)
+        counters = {n.id for n in ast.walk(L.target) if isinstance(n, ast.Name)} if isinstance(L, ast.For) else set()
+        s_ctx = cond_context(tree, s_stmt, L, counters)
+        first_only = False
+        for (s_, owner, field, idx) in tree.ancestors(s_stmt):
+            if owner is L:
+                break
+            if isinstance(owner, ast.If) and field == "body":
+                conj = owner.test.values if isinstance(owner.test, ast.BoolOp) and isinstance(owner.test.op, ast.And) \
+                    else [owner.test]
+                for c in conj:
+                    if isinstance(c, ast.Compare) and len(c.ops) == 1 and isinstance(c.ops[0], ast.Eq) \
+                            and isinstance(c.left, ast.Name) and c.left.id in counters \
+                            and isinstance(c.comparators[0], ast.Constant) and c.comparators[0].value == 0:
+                        first_only = True
+        if first_only:
+            report.add("R1.4m", ent, construct, f"{f.file}:{S.lineno}", True,
+                       detail="selection happens in the first iteration only: there are no earlier picks", nontrivial=False)
+            continue
+        # the exclusion has to happen on every path on which the selection happens
+        ex_all = [(n, b, k) for (n, b, k) in ex if cond_context(tree, n if isinstance(n, ast.stmt) else tree.stmt_of(n), L, counters) <= s_ctx]
+        partial = bool(ex) and not ex_all
+        ex = ex_all
+        via_callee = False
+        if not ex:
+            for c in ast.walk(L):
+                if isinstance(c, ast.Call) and c is not S and callee_exclusions(p, f, c, picks):
+                    # the call's result must feed the operand
+                    for st in ast.walk(L):
+                        if isinstance(st, ast.Assign) and any(x is c for x in ast.walk(st.value)):
+                            if any(base_name(t) in back for t in st.targets) and \
+                                    cond_context(tree, st, L, counters) <= s_ctx:
+                                via_callee = True
+        sampling_m3 = False
+        if not ex and not via_callee and callname(S) == "choice":
+            txt = " ".join(ast.unparse(x) for x in ast.walk(L) if isinstance(x, ast.Call)
+                           and callname(x) and "pairwise_distances" in callname(x))
+            sampling_m3 = bool(txt)
+            if not sampling_m3:
+                # distance-to-selected computed in a project callee that receives the picks
+                for c in ast.walk(L):
+                    if isinstance(c, ast.Call) and c is not S:
+                        r = p.resolve_expr(f.module, c.func) if isinstance(c.func, (ast.Name, ast.Attribute)) else None
+                        if r is not None and r[0] == "func" and any(names_in(a) & picks for a in c.args) and any(
+                                isinstance(x, ast.Call) and callname(x) and "pairwise_distances" in callname(x)
+                                for x in ast.walk(r[1].node)):
+                            sampling_m3 = True
+        okm = bool(ex) or via_callee or sampling_m3
+        mech = (ex[0][2] + ": `" + norm_stmt(ex[0][0], 60) + "`") if ex else (
+            "M1/M2 inside a callee that receives the picks" if via_callee else
+            ("M3: zero sampling mass at distance-to-selected" if sampling_m3 else ""))
+        report.add("R1.4m", ent, construct, f"{f.file}:{S.lineno}", okm,
+                   detail=("exclusion mechanism " + mech) if okm else
+                   ("the exclusion of earlier picks happens only on some paths to the selection (inside a branch the "
+                    "selection is not under)" if partial else
+                    "earlier picks are not excluded by a mask (NaN/0/False store indexed by the picks) or by shrinking "
+                    "the pool; relying on distances/cluster cells alone fails for duplicated points and empty cells"))
 
 
 def outside_defs(fnode, L):
